@@ -9,3 +9,12 @@ Check c12_first_quorum : forall (stake : N -> N) (quorum own : N) (acks : list N
   (k < length acks)%nat /\ quorum <= own + wsum stake (firstn (S k) acks) /\
   forall j, (j < k)%nat -> own + wsum stake (firstn (S j) acks) < quorum.
 Print Assumptions c12_first_quorum.
+
+(* second sentence of C12: the honest stake holding a forwarded batch (creator + honest acknowledgers counted) exceeds f *)
+From HS Require Import QuorumHeld.
+Check c12_held_by_honest : forall (stake : N -> N) (byz : N -> bool) (n own : N) (acks : list N) (k : nat),
+  1 <= n ->
+  wsum stake (filter byz acks) <= (n - 1) / 3 ->
+  qw stake (g_quorum_mempool n) own acks = Some k ->
+  own + wsum stake (filter (fun x => negb (byz x)) (firstn (S k) acks)) >= (n - 1) / 3 + 1.
+Print Assumptions c12_held_by_honest.
